@@ -11,6 +11,7 @@ from .conf import config
 def fftrange(n, dtype=None):
     """FFT-aligned coordinate grid for n samples."""
     # return np.arange(-n//2, -n//2+n, dtype=dtype)
+    n = int(n)  # unsigned numpy integers wrap in -(n//2)
     return np.arange(-(n//2), -(n//2)+n, dtype=dtype)
 
 
@@ -32,6 +33,7 @@ def next_fast_len(n):
 
 def fftfreq(n, d=1.0):
     """Fast Fourier Transform frequency vector."""
+    n = int(n)  # unsigned numpy integers wrap in the negative half of the vector
     try:
         return fft.fftfreq(n, d).astype(config.precision)
     except:  # NOQA -- cannot predict arbitrary library error types
